@@ -730,5 +730,84 @@ var Prop = &fw.Prop{
 	NewReal:  pool.NewReal,
 	Monitor:  monitor,
 	RealOnly: func(line string) bool { return strings.HasPrefix(line, "wait.real.") },
+	// how far the store's dispatcher had got when the handler's listener registered is not under the harness's
+	// control: for a status path on which that matters the twin answers `oneof a|b|…`
+	Match: func(line, realOut, twinOut string) bool {
+		if strings.HasPrefix(twinOut, "oneof ") {
+			for _, alt := range strings.Split(strings.TrimPrefix(twinOut, "oneof "), " || ") {
+				if strings.TrimSpace(alt) == strings.TrimSpace(realOut) {
+					return true
+				}
+			}
+		}
+		return false
+	},
 	Sigs:     map[string]func(fw.Case, []string, string) bool{},
+	// the index a request must be answered with is its position in the script: lines are not dropped one by one
+	FixedLayout: true,
+	Shrink:      shrinkCase,
+}
+
+// shrinkCase: drop one request (renumbering the others), shorten a status path from its end, lower j.
+func shrinkCase(c fw.Case) []fw.Case {
+	type reqLine struct{ args map[string]string }
+	var reqs []map[string]string
+	for _, ln := range c.Script {
+		toks := strings.Fields(ln)
+		if len(toks) == 0 || toks[0] != "wait.run" {
+			continue
+		}
+		m := map[string]string{}
+		for _, a := range toks[1:] {
+			k, v, _ := strings.Cut(a, "=")
+			m[k] = v
+		}
+		reqs = append(reqs, m)
+	}
+	build := func(rs []map[string]string) fw.Case {
+		var s []string
+		for i, m := range rs {
+			var p []string
+			if m["path"] != "" {
+				p = strings.Split(m["path"], ",")
+			}
+			j, _ := strconv.Atoi(m["j"])
+			if j > len(p) {
+				j = len(p)
+			}
+			s = append(s, runLine(m["h"], m["sync"] == "1", j, p, m["change"], i+1), "wait.real.stored")
+		}
+		return fw.Case{Script: s, Tags: c.Tags, Nontrivial: c.Nontrivial, Origin: c.Origin}
+	}
+	clone := func(m map[string]string) map[string]string {
+		n := map[string]string{}
+		for k, v := range m {
+			n[k] = v
+		}
+		return n
+	}
+	var out []fw.Case
+	if len(reqs) > 1 {
+		for i := range reqs {
+			out = append(out, build(append(append([]map[string]string{}, reqs[:i]...), reqs[i+1:]...)))
+		}
+	}
+	for i, m := range reqs {
+		if m["path"] != "" {
+			p := strings.Split(m["path"], ",")
+			n := clone(m)
+			n["path"] = strings.Join(p[:len(p)-1], ",")
+			rs := append([]map[string]string{}, reqs...)
+			rs[i] = n
+			out = append(out, build(rs))
+		}
+		if j, _ := strconv.Atoi(m["j"]); j > 0 {
+			n := clone(m)
+			n["j"] = strconv.Itoa(j - 1)
+			rs := append([]map[string]string{}, reqs...)
+			rs[i] = n
+			out = append(out, build(rs))
+		}
+	}
+	return out
 }
